@@ -36,20 +36,79 @@ func stmtOfNode(s InjectorStmt, n *node) bool {
 			vs.SameSlice(vs.As[*InjectorProviderCallStmt](s).Returns, n.returnValues))
 }
 
+// --- readiness for emission: what the statement emitters require of the plan ------------------------------
+
+// slotReady: a wired argument slot whose value has been referenced.
+func slotReady(a *InjectorCallArgument) bool {
+	return vs.IsAllocated(a) && vs.IsAllocated(a.Param) && len(a.Param.types) >= 1 && a.Param.refCounter > 0
+}
+
+// valueReady: a value with a type, a private import table, and a reference count consistent with its channel flag.
+func valueReady(v *InjectorParam) bool {
+	return vs.IsAllocated(v) && len(v.types) >= 1 && v.refCounter >= 0 && (!v.withChannel || v.refCounter > 0) && importsNonNil(v.ReferencedImports)
+}
+
+func valuesDistinct(n *node) bool {
+	return vs.ForallInt2(func(i, j int) bool {
+		return vs.Implies(0 <= i && i < j && j < len(n.returnValues), n.returnValues[i] != n.returnValues[j])
+	})
+}
+
+// nodeReadyForEmission: every slot wired and referenced, every value ready, the provider's own data present.
+func nodeReadyForEmission(n *node) bool {
+	return plannedNode(n) && importsNonNil(n.providerSpec.ReferencedImports) &&
+		vs.Forall(len(n.providerArgs), func(d int) bool { return slotReady(n.providerArgs[d]) }) &&
+		vs.Forall(len(n.returnValues), func(k int) bool { return valueReady(n.returnValues[k]) }) && valuesDistinct(n) &&
+		vs.Implies(isFieldAccessNode(n), n.providerSpec.SourceField != nil && len(n.returnValues) >= 1)
+}
+
+func poolReady(pool []*node) bool {
+	return vs.Forall(len(pool), func(i int) bool { return nodeReadyForEmission(pool[i]) })
+}
+
+// providerIsPooled: ps is the provider of some node of the pool.
+func providerInPool(ps *ProviderSpec, pool []*node) bool {
+	return vs.Exists(len(pool), func(i int) bool { return pool[i].providerSpec == ps })
+}
+
 //kvc:contract (*Graph).buildPoolStmtsSimple
 func contract_Graph_buildPoolStmtsSimple(g *Graph, pool []*node) (stmts []InjectorStmt, err error) {
-	vs.Requires(poolPlanned(pool))
+	vs.Requires(poolPlanned(pool) && poolReady(pool))
 	vs.Ensures("never_fails", err == nil)
 	vs.Ensures("one_statement_per_node_in_pool_order", len(stmts) == len(pool) &&
 		vs.Forall(len(pool), func(i int) bool { return stmtOfNode(stmts[i], pool[i]) }))
+	// the emitters' preconditions: ready nodes give ready statements
+	vs.Ensures("ready_nodes_give_ready_statements", vs.Forall(len(stmts), func(i int) bool { return threadStmtReady(stmts[i]) }))
+	vs.Ensures("fallible_calls_come_from_the_pool", vs.Forall(len(stmts), func(i int) bool {
+		return vs.Implies(vs.TypeIs[*InjectorProviderCallStmt](stmts[i]), vs.As[*InjectorProviderCallStmt](stmts[i]).Provider == pool[i].providerSpec)
+	}))
 	vs.Allocates()
 	return
+}
+
+// fallibleCallsCovered: every provider-call statement among stmts whose provider can fail is covered by flag.
+func fallibleCallsCovered(stmts []InjectorStmt, flag bool) bool {
+	return vs.Forall(len(stmts), func(k int) bool {
+		return vs.Implies(vs.TypeIs[*InjectorProviderCallStmt](stmts[k]) && vs.As[*InjectorProviderCallStmt](stmts[k]).Provider.IsReturnError, flag)
+	})
+}
+
+// noFallibleIn: no pooled provider can fail.
+func noFallibleIn(pools [][]*node) bool {
+	return vs.Forall(len(pools), func(p int) bool {
+		return vs.Forall(len(pools[p]), func(i int) bool { return !pools[p][i].providerSpec.IsReturnError })
+	})
+}
+
+func poolsReady(pools [][]*node) bool {
+	return vs.Forall(len(pools), func(p int) bool { return poolReady(pools[p]) })
 }
 
 //kvc:loop (*Graph).buildPoolStmtsSimple "for _, n := range pool"
 func inv_buildPoolStmtsSimple(pool []*node, stmts []InjectorStmt, kvcIdx int) {
 	vs.Invariant("image_so_far", len(stmts) == kvcIdx &&
 		vs.Forall(kvcIdx, func(i int) bool { return stmtOfNode(stmts[i], pool[i]) }))
+	vs.Invariant("ready_so_far", vs.Forall(kvcIdx, func(i int) bool { return threadStmtReady(stmts[i]) }))
 }
 
 // ---------------------------------------------------------------------------
@@ -127,6 +186,16 @@ func topoOrder(g *Graph) []*node { return nil }
 //kvc:pure topoIdx
 func topoIdx(g *Graph, n *node) int { return 0 }
 
+// nodeDataPresent: what the parser / NewGraph put into a node (ASSUMED, evaluated at run time by decl_bounded): an
+// argument has its type expression and is used by someone; a provider supplies non-empty groups, has an import table
+// without nil entries, and a field-access provider names its field and supplies one value.
+func nodeDataPresent(g *Graph, n *node) bool {
+	return vs.Implies(n.providerSpec == nil, n.arg.ASTTypeExpr != nil && (len(g.edges[n]) >= 1 || n == g.returnValue.node)) &&
+		vs.Implies(n.providerSpec != nil, importsNonNil(n.providerSpec.ReferencedImports) &&
+			vs.Forall(len(n.providerSpec.Provides), func(k int) bool { return len(n.providerSpec.Provides[k]) >= 1 }) &&
+			vs.Implies(isFieldAccessNode(n), n.providerSpec.SourceField != nil && len(n.providerSpec.Provides) >= 1))
+}
+
 // topoOK: the yield order - every node once, every edge forward.
 func topoOK(g *Graph) bool {
 	return vs.Forall(len(topoOrder(g)), func(j int) bool { return nodeWF(topoOrder(g)[j]) && topoIdx(g, topoOrder(g)[j]) == j }) &&
@@ -137,6 +206,7 @@ func topoOK(g *Graph) bool {
 			})
 		}) &&
 		len(topoOrder(g)) == len(g.nodes) &&
+		vs.Forall(len(topoOrder(g)), func(j int) bool { return nodeDataPresent(g, topoOrder(g)[j]) }) &&
 		vs.Forall(len(topoOrder(g)), func(j int) bool {
 			return vs.Implies(topoOrder(g)[j].providerSpec != nil && isFieldAccessNode(topoOrder(g)[j]), len(topoOrder(g)[j].providerArgs) >= 1) &&
 				vs.Forall(len(topoOrder(g)[j].providerArgs), func(d int) bool { return slotFed(g, topoOrder(g)[j], d) })
@@ -190,7 +260,7 @@ func samePool(n, m *node) bool {
 // because no property asks for it.)
 func edgeWired(g *Graph, n *node, i int) bool {
 	return vs.IsAllocated(edgeSlot(g, n, i)) &&
-		edgeSlot(g, n, i).Param == n.returnValues[g.edges[n][i].provideArgSrc] &&
+		edgeSlot(g, n, i).Param == n.returnValues[g.edges[n][i].provideArgSrc] && edgeSlot(g, n, i).Param.refCounter > 0 &&
 		vs.Implies(!samePool(n, g.edges[n][i].node) && n.providerSpec != nil,
 			edgeSlot(g, n, i).IsWait && n.returnValues[g.edges[n][i].provideArgSrc].withChannel) &&
 		vs.Implies(samePool(n, g.edges[n][i].node), gPosOf[n] < gPosOf[g.edges[n][i].node])
@@ -200,11 +270,13 @@ func edgeSlot(g *Graph, n *node, i int) *InjectorCallArgument {
 	return g.edges[n][i].node.providerArgs[g.edges[n][i].provideArgDst]
 }
 
-// valuesReady: node n has one fresh value per supplied group; an argument's value is marked isArg.
-func valuesReady(n *node) bool {
-	return len(n.returnValues) == returnCount(n) &&
+// valuesReady: node n has one ready value per supplied group, pairwise different, with private import tables;
+// an argument's value is marked isArg.
+func valuesReady(n *node, metaData *MetaData) bool {
+	return len(n.returnValues) == returnCount(n) && valuesDistinct(n) &&
 		vs.Forall(len(n.returnValues), func(k int) bool {
-			return vs.IsAllocated(n.returnValues[k]) && n.returnValues[k].isArg == (n.providerSpec == nil)
+			return valueReady(n.returnValues[k]) && n.returnValues[k].isArg == (n.providerSpec == nil) &&
+				!vs.SameMap(n.returnValues[k].ReferencedImports, metaData.Imports)
 		})
 }
 
@@ -217,8 +289,17 @@ func contract_Graph_Build(g *Graph, metaData *MetaData, varPool *VarPool) (resul
 		vs.Forall(len(topoOrder(g)), func(j int) bool {
 			return vs.Forall(len(g.edges[topoOrder(g)[j]]), func(i int) bool { return edgeWired(g, topoOrder(g)[j], i) })
 		})))
-	vs.Ensures("values_ready", vs.Implies(err == nil, vs.Forall(len(topoOrder(g)), func(j int) bool { return valuesReady(topoOrder(g)[j]) })))
+	vs.Ensures("values_ready", vs.Implies(err == nil, vs.Forall(len(topoOrder(g)), func(j int) bool { return valuesReady(topoOrder(g)[j], metaData) })))
 	vs.Ensures("imports_nonnil", importsNonNil(metaData.Imports))
+	// C02: the injector returns the value of the node that supplies the requested type
+	vs.Ensures("returns_the_requested_value", vs.Implies(err == nil, returnIsRequested(g, result)))
+	// the preconditions of the emitters (generateInjectorDecl / generateStmts) hold for the plan Build returns
+	vs.Ensures("ready_for_emission_vars", vs.Implies(err == nil, injectorVarsReady(result) &&
+		vs.Forall(len(result.Vars), func(i int) bool { return !vs.SameMap(result.Vars[i].ReferencedImports, metaData.Imports) })))
+	vs.Ensures("ready_for_emission_args", vs.Implies(err == nil, injectorArgsReady(result) && argsHaveTypes(result)))
+	vs.Ensures("ready_for_emission_return", vs.Implies(err == nil, returnParamReady(result)))
+	vs.Ensures("ready_for_emission_statements", vs.Implies(err == nil, vs.Forall(len(result.Stmts), func(k int) bool { return topStmtReady(result.Stmts[k]) })))
+	vs.Ensures("ready_for_emission_fallible", vs.Implies(err == nil, fallibleOnlyIfErrorResult(result)))
 	// C01/C03: the statement of a provider node sits in the thread of the node's pool, at the node's position in the
 	// pool (same-pool producers therefore precede their consumers in program order); goroutines come first
 	vs.Ensures("goroutines_first", vs.Implies(err == nil, 0 <= gChains && gChains <= len(result.Stmts) &&
@@ -289,12 +370,17 @@ func inv_Build_pass1(g *Graph, injector *Injector, pools [][]*node, poolProvided
 	vs.Invariant("locals", buildLocalsOK(injector, pools, poolProvidedNodes, initialProvidedNodes, nodeProvidedNodes, nodeToPoolIdx))
 	vs.Invariant("env", buildEnvOK(metaData, varPool))
 	vs.Invariant("pools_exist", len(topoOrder(g)) == 0 || len(pools) >= 1)
-	vs.Invariant("values", vs.Forall(kvcIdx, func(j int) bool { return valuesReady(topoOrder(g)[j]) }))
+	vs.Invariant("values", vs.Forall(kvcIdx, func(j int) bool { return valuesReady(topoOrder(g)[j], metaData) }))
 	vs.Invariant("placed", vs.Forall(kvcIdx, func(j int) bool {
 		return vs.Has(nodeToPoolIdx, topoOrder(g)[j]) && nodeToPoolIdx[topoOrder(g)[j]] == gPoolOf[topoOrder(g)[j]] &&
 			(gPoolOf[topoOrder(g)[j]] == -1) == (topoOrder(g)[j].providerSpec == nil) && gPoolOf[topoOrder(g)[j]] >= -1
 	}))
 	vs.Invariant("args_ready", injectorArgsReady(injector))
+	vs.Invariant("args_from_nodes", argsFromNodes(g, injector, kvcIdx))
+	vs.Invariant("vars", varsReady(injector, metaData))
+	vs.Invariant("return_ready", returnParamReady(injector))
+	vs.Invariant("return_is_the_requested_value", vs.Implies(topoIdx(g, g.returnValue.node) < kvcIdx, returnIsRequested(g, injector)))
+	vs.Invariant("fallible_recorded", fallibleRecorded(pools, injector))
 	vs.Invariant("pooled_where_recorded", vs.Forall(kvcIdx, func(j int) bool {
 		return vs.Implies(topoOrder(g)[j].providerSpec != nil, pooledAt(pools, topoOrder(g)[j]))
 	}))
@@ -324,12 +410,60 @@ func inv_Build_pass1(g *Graph, injector *Injector, pools [][]*node, poolProvided
 func inv_Build_provides(injector *Injector, returnValues []*InjectorParam, metaData *MetaData, varPool *VarPool, kvcIdx int) {
 	vs.Invariant("env", injector != nil && buildEnvOK(metaData, varPool))
 	vs.Invariant("fresh_values", len(returnValues) == kvcIdx && vs.Forall(kvcIdx, func(k int) bool {
-		return vs.IsAllocated(returnValues[k]) && !returnValues[k].isArg
+		return valueReady(returnValues[k]) && !returnValues[k].isArg && returnValues[k].refCounter == 0 &&
+			!vs.SameMap(returnValues[k].ReferencedImports, metaData.Imports) && importTableIsNew(returnValues[k].ReferencedImports) && valueIsNew(returnValues[k])
+	}) && vs.ForallInt2(func(a, b int) bool {
+		return vs.Implies(0 <= a && a < b && b < kvcIdx, returnValues[a] != returnValues[b])
 	}))
+	vs.Invariant("vars", varsReady(injector, metaData))
+}
+
+// valueIsNew: the value object did not exist when Build was entered.
+func valueIsNew(v *InjectorParam) bool { return !vs.Old(vs.IsAllocated(v)) }
+
+// varsReady: every variable of the injector is a ready value with a private import table.
+func varsReady(injector *Injector, metaData *MetaData) bool {
+	return vs.Forall(len(injector.Vars), func(i int) bool {
+		return valueReady(injector.Vars[i]) && !vs.SameMap(injector.Vars[i].ReferencedImports, metaData.Imports)
+	})
+}
+
+// argOfNode: injector argument a is the argument of argument node n.
+func argOfNode(a *InjectorArgument, n *node) bool {
+	return n != nil && n.providerSpec == nil && n.arg != nil && len(n.returnValues) >= 1 && a.Param == n.returnValues[0] &&
+		a.ASTTypeExpr == n.arg.ASTTypeExpr && a.Type == n.arg.Type
+}
+
+// Ghost: the argument node the i-th injector argument was made from.
+var gArgNode map[int]*node
+
+//kvc:ghost (*Graph).Build before "injector.Args = append(injector.Args, &InjectorArgument{"
+func ghost_Build_argNode(injector *Injector, n *node) { gArgNode[len(injector.Args)] = n }
+
+func argsFromNodes(g *Graph, injector *Injector, bound int) bool {
+	return vs.Forall(len(injector.Args), func(i int) bool {
+		return argOfNode(injector.Args[i], gArgNode[i]) && 0 <= topoIdx(g, gArgNode[i]) && topoIdx(g, gArgNode[i]) < bound &&
+			topoOrder(g)[topoIdx(g, gArgNode[i])] == gArgNode[i]
+	})
+}
+
+// returnIsRequested (C02): the injector returns the requested value of the node that supplies the requested type.
+func returnIsRequested(g *Graph, injector *Injector) bool {
+	return injector.Return != nil && injector.Return.Param == g.returnValue.node.returnValues[g.returnValue.returnIndex]
+}
+
+// fallibleRecorded: a pooled provider that can fail has made the injector fallible.
+func fallibleRecorded(pools [][]*node, injector *Injector) bool {
+	return vs.Forall(len(pools), func(p int) bool {
+		return vs.Forall(len(pools[p]), func(i int) bool { return vs.Implies(pools[p][i].providerSpec.IsReturnError, injector.IsReturnError) })
+	})
 }
 
 //kvc:loop (*Graph).Build "for n := range g.topologicalSortIter() { providedNodes := nodeProvidedNodes[n]"
-func inv_Build_pass2(g *Graph, kvcIdx int) {
+func inv_Build_pass2(g *Graph, injector *Injector, metaData *MetaData, kvcIdx int) {
+	vs.Invariant("values_stay_ready", vs.Forall(len(topoOrder(g)), func(j int) bool { return valuesReady(topoOrder(g)[j], metaData) }))
+	vs.Invariant("vars", varsReady(injector, metaData))
+	vs.Invariant("return_ready", returnParamReady(injector))
 	vs.Invariant("slots_keep_their_number", vs.ForallRef(func(m *node) bool { return len(m.providerArgs) == vs.Old(len(m.providerArgs)) }))
 	vs.Invariant("wired", vs.Forall(kvcIdx, func(j int) bool {
 		return vs.Forall(len(g.edges[topoOrder(g)[j]]), func(i int) bool { return edgeWired(g, topoOrder(g)[j], i) })
@@ -337,7 +471,10 @@ func inv_Build_pass2(g *Graph, kvcIdx int) {
 }
 
 //kvc:loop (*Graph).Build "for _, edge := range g.edges[n]"
-func inv_Build_edges(g *Graph, n *node, kvcIdx int, kvcOuterIdx int) {
+func inv_Build_edges(g *Graph, injector *Injector, metaData *MetaData, n *node, kvcIdx int, kvcOuterIdx int) {
+	vs.Invariant("values_stay_ready", vs.Forall(len(topoOrder(g)), func(j int) bool { return valuesReady(topoOrder(g)[j], metaData) }))
+	vs.Invariant("vars", varsReady(injector, metaData))
+	vs.Invariant("return_ready", returnParamReady(injector))
 	vs.Invariant("n", 0 <= kvcOuterIdx && kvcOuterIdx < len(topoOrder(g)) && n == topoOrder(g)[kvcOuterIdx])
 	vs.Invariant("slots_keep_their_number", vs.ForallRef(func(m *node) bool { return len(m.providerArgs) == vs.Old(len(m.providerArgs)) }))
 	vs.Invariant("wired_before", vs.Forall(kvcOuterIdx, func(j int) bool {
@@ -401,7 +538,11 @@ func ghost_buildStmts_chain(stmts []InjectorStmt, poolIdx int) {
 //kvc:ghost (*Graph).buildStmts before "parentStmts = append(parentStmts, subStmts...)"
 func ghost_buildStmts_mainAppend(parentStmts []InjectorStmt, poolIdx int) {
 	gMainStart[poolIdx] = len(parentStmts)
+	gPrevMain = parentStmts
 }
+
+// gPrevMain: the injector's own flow just before a pool is appended to it (proof bookkeeping only).
+var gPrevMain []InjectorStmt
 
 //kvc:ghost (*Graph).buildStmts before "stmts = append(stmts, parentStmts...)"
 func ghost_buildStmts_chainsDone(stmts []InjectorStmt) { gChains = len(stmts) }
@@ -421,13 +562,27 @@ func threadsOK(pools [][]*node, visited []bool, stmts, parentStmts []InjectorStm
 		vs.Forall(len(parentStmts), func(k int) bool { return !vs.TypeIs[*InjectorChainStmt](parentStmts[k]) })
 }
 
+// emissionOK: the conditional facts the emitters need, for what has been assembled so far.
+func emissionOK(pools [][]*node, stmts, parentStmts []InjectorStmt) bool {
+	return vs.Forall(len(stmts), func(k int) bool { return topStmtReady(stmts[k]) }) &&
+		vs.Forall(len(parentStmts), func(k int) bool { return threadStmtReady(parentStmts[k]) })
+}
+
+// gNoFallible: set by Build before it calls buildStmts - "the injector has no error result"; then no pooled
+// provider can fail (a plain flag keeps the quantified premise out of the loop invariants).
+var gNoFallible bool
+
+func fallibleOK(pools [][]*node, parentStmts []InjectorStmt) bool {
+	return vs.Implies(gNoFallible, fallibleCallsCovered(parentStmts, false))
+}
+
 func poolIdxsOK(pools [][]*node, idxs []int) bool {
 	return vs.Forall(len(idxs), func(k int) bool { return 0 <= idxs[k] && idxs[k] < len(pools) && len(pools[idxs[k]]) > 0 })
 }
 
 //kvc:contract (*Graph).buildStmts
 func contract_Graph_buildStmts(g *Graph, pools [][]*node, nodeProvidedNodes map[*node]map[*node]struct{}, initialProvidedNodes map[*node]struct{}) (stmts []InjectorStmt, err error) {
-	vs.Requires(g != nil && poolsPlanned(pools) && initialProvidedNodes != nil)
+	vs.Requires(g != nil && poolsPlanned(pools) && poolsReady(pools) && initialProvidedNodes != nil && vs.Implies(gNoFallible, noFallibleIn(pools)))
 	// C01/C03: goroutines first, then the injector's own flow
 	vs.Ensures("goroutines_first", vs.Implies(err == nil, 0 <= gChains && gChains <= len(stmts) &&
 		vs.Forall(gChains, func(k int) bool { return vs.TypeIs[*InjectorChainStmt](stmts[k]) }) &&
@@ -438,7 +593,11 @@ func contract_Graph_buildStmts(g *Graph, pools [][]*node, nodeProvidedNodes map[
 			(gChainOfPool[p] == -1 || (0 <= gChainOfPool[p] && gChainOfPool[p] < gChains && isChainOfPool(stmts[gChainOfPool[p]], pools[p]))) &&
 			(gMainStart[p] == -1 || segmentOfPool(stmts, gChains+gMainStart[p], pools[p]))
 	})))
-	vs.Modifies(gChainOfPool, gMainStart, gChains)
+	// the emitters' preconditions
+	vs.Ensures("ready_pools_give_ready_statements", vs.Implies(err == nil, vs.Forall(len(stmts), func(k int) bool { return topStmtReady(stmts[k]) })))
+	// C06: a fallible provider call in the injector's own flow comes from a fallible pooled provider
+	vs.Ensures("own_flow_fallible_calls_come_from_pools", vs.Implies(err == nil && gNoFallible, fallibleCallsCovered(stmts, false)))
+	vs.Modifies(gChainOfPool, gMainStart, gChains, gPrevMain)
 	vs.Allocates()
 	return
 }
@@ -480,6 +639,8 @@ func inv_buildStmts_proc2(processedNodes map[*node]struct{}) {
 func inv_buildStmts_chains(pools [][]*node, visited []bool, stmts, parentStmts []InjectorStmt, initialPoolIdxs []int, processedNodes map[*node]struct{}) {
 	vs.Invariant("threads", threadsOK(pools, visited, stmts, parentStmts, len(pools)))
 	vs.Invariant("idxs", poolIdxsOK(pools, initialPoolIdxs) && processedNodes != nil)
+	vs.Invariant("emission", emissionOK(pools, stmts, parentStmts))
+	vs.Invariant("fallible", fallibleOK(pools, parentStmts))
 }
 
 //kvc:loop (*Graph).buildStmts "for _, n := range pools[poolIdx]"
@@ -490,11 +651,15 @@ func inv_buildStmts_proc3(processedNodes map[*node]struct{}) {
 //kvc:loop (*Graph).buildStmts "for { newPoolProcessed := false"
 func inv_buildStmts_fix(pools [][]*node, visited []bool, stmts, parentStmts []InjectorStmt, processedNodes map[*node]struct{}) {
 	vs.Invariant("threads", threadsOK(pools, visited, stmts, parentStmts, len(pools)) && processedNodes != nil)
+	vs.Invariant("emission", emissionOK(pools, stmts, parentStmts))
+	vs.Invariant("fallible", fallibleOK(pools, parentStmts))
 }
 
 //kvc:loop (*Graph).buildStmts "for poolIdx, pool := range pools { if visited[poolIdx] || len(pool) == 0"
 func inv_buildStmts_fixInner(pools [][]*node, visited []bool, stmts, parentStmts []InjectorStmt, processedNodes map[*node]struct{}) {
 	vs.Invariant("threads", threadsOK(pools, visited, stmts, parentStmts, len(pools)) && processedNodes != nil)
+	vs.Invariant("emission", emissionOK(pools, stmts, parentStmts))
+	vs.Invariant("fallible", fallibleOK(pools, parentStmts))
 }
 
 //kvc:loop (*Graph).buildStmts "for _, dependency := range g.reverseEdges[firstNode] { if _, ok := processedNodes[dependency]"
@@ -509,11 +674,21 @@ func inv_buildStmts_proc4(processedNodes map[*node]struct{}) {
 //
 //kvc:ghost (*Graph).buildStmts after "parentStmts = append(parentStmts, subStmts...)"
 func ghost_buildStmts_mainAppended(pools [][]*node, pool []*node, poolIdx int, parentStmts, subStmts []InjectorStmt) {
+	vs.Assert("hint_append_keeps_prefix", len(parentStmts) == len(gPrevMain)+len(subStmts) &&
+		vs.Forall(len(gPrevMain), func(k int) bool { return parentStmts[k] == gPrevMain[k] }) &&
+		vs.Forall(len(subStmts), func(i int) bool { return parentStmts[len(gPrevMain)+i] == subStmts[i] }))
 	vs.Assert("hint_new_segment_is_the_pool", segmentOfPool(parentStmts, gMainStart[poolIdx], pool))
 	vs.Assert("hint_pool_is_pools_idx", vs.SameSlice(pool, pools[poolIdx]))
 	vs.Assert("hint_older_segments_kept", vs.Forall(len(pools), func(p int) bool {
 		return p == poolIdx || gMainStart[p] == -1 || segmentOfPool(parentStmts, gMainStart[p], pools[p])
 	}))
+	vs.Assert("hint_own_flow_ready", vs.Forall(len(parentStmts), func(k int) bool { return threadStmtReady(parentStmts[k]) }))
+	vs.Assert("hint_own_flow_fallible", fallibleOK(pools, parentStmts))
+}
+
+//kvc:ghost (*Graph).buildStmts after "stmts = append(stmts, &InjectorChainStmt{"
+func ghost_buildStmts_chainReady(pools [][]*node, stmts []InjectorStmt) {
+	vs.Assert("hint_new_goroutine_ready", topStmtReady(stmts[len(stmts)-1]))
 }
 
 // proof hints before the plan is turned into statements: every argument slot of every yielded provider has been
@@ -534,4 +709,61 @@ func ghost_Build_planned(g *Graph, pools [][]*node) {
 		return vs.Forall(len(topoOrder(g)[j].providerArgs), func(d int) bool { return vs.IsAllocated(topoOrder(g)[j].providerArgs[d]) })
 	}))
 	vs.Assert("hint_pools_planned", poolsPlanned(pools))
+	vs.Assert("hint_yielded_providers_ready", vs.Forall(len(topoOrder(g)), func(j int) bool {
+		return vs.Implies(topoOrder(g)[j].providerSpec != nil, nodeReadyForEmission(topoOrder(g)[j]))
+	}))
+	vs.Assert("hint_pools_ready", poolsReady(pools))
+}
+
+//kvc:ghost (*Graph).Build before "injector.Stmts, err = g.buildStmts("
+func ghost_Build_noFallible(injector *Injector) { gNoFallible = !injector.IsReturnError }
+
+// proof hints before the context argument is injected: the argument list is ready for the signature emitter
+//
+//kvc:ghost (*Graph).Build before "err = g.injectContextArg(injector, metaData, varPool)"
+func ghost_Build_argsReady(g *Graph, injector *Injector) {
+	vs.Assert("hint_argument_nodes_used", vs.Forall(len(topoOrder(g)), func(j int) bool {
+		return vs.Implies(topoOrder(g)[j].providerSpec == nil, len(g.edges[topoOrder(g)[j]]) >= 1 || topoOrder(g)[j] == g.returnValue.node)
+	}))
+	vs.Assert("hint_used_argument_nodes_referenced", vs.Forall(len(topoOrder(g)), func(j int) bool {
+		return vs.Implies(topoOrder(g)[j].providerSpec == nil && len(g.edges[topoOrder(g)[j]]) >= 1,
+			g.edges[topoOrder(g)[j]][0].provideArgSrc == 0 && edgeWired(g, topoOrder(g)[j], 0) && topoOrder(g)[j].returnValues[0].refCounter > 0)
+	}))
+	vs.Assert("hint_returned_argument_referenced", vs.Implies(g.returnValue.node.providerSpec == nil,
+		g.returnValue.returnIndex == 0 && injector.Return != nil && injector.Return.Param == g.returnValue.node.returnValues[0] &&
+			g.returnValue.node.returnValues[0].refCounter > 0))
+	vs.Assert("hint_argument_nodes_referenced", vs.Forall(len(topoOrder(g)), func(j int) bool {
+		return vs.Implies(topoOrder(g)[j].providerSpec == nil, topoOrder(g)[j].returnValues[0].refCounter > 0)
+	}))
+	vs.Assert("hint_argument_values_referenced", vs.Forall(len(injector.Args), func(i int) bool { return injector.Args[i].Param.refCounter > 0 }))
+	vs.Assert("hint_args_have_types", argsHaveTypes(injector) && argParamsAreArgs(injector))
+}
+
+// proof hints after the context argument was injected (it touches one value's reference count only)
+//
+//kvc:ghost (*Graph).Build after "err = g.injectContextArg(injector, metaData, varPool)"
+func ghost_Build_afterCtx(g *Graph, injector *Injector, metaData *MetaData) {
+	vs.Assert("hint_vars_allocated_and_typed", vs.Forall(len(injector.Vars), func(i int) bool { return vs.IsAllocated(injector.Vars[i]) && len(injector.Vars[i].types) >= 1 }))
+	vs.Assert("hint_vars_import_tables", vs.Forall(len(injector.Vars), func(i int) bool { return importsNonNil(injector.Vars[i].ReferencedImports) }))
+	vs.Assert("hint_vars_channels_referenced", vs.Forall(len(injector.Vars), func(i int) bool { return !injector.Vars[i].withChannel || injector.Vars[i].refCounter > 0 }))
+	vs.Assert("hint_vars_private_tables", vs.Forall(len(injector.Vars), func(i int) bool { return !vs.SameMap(injector.Vars[i].ReferencedImports, metaData.Imports) }))
+	vs.Assert("hint_statements_still_ready", vs.Forall(len(injector.Stmts), func(k int) bool { return topStmtReady(injector.Stmts[k]) }))
+	vs.Assert("hint_values_shape", vs.Forall(len(topoOrder(g)), func(j int) bool {
+		return len(topoOrder(g)[j].returnValues) == returnCount(topoOrder(g)[j]) && valuesDistinct(topoOrder(g)[j]) &&
+			vs.Forall(len(topoOrder(g)[j].returnValues), func(k int) bool {
+				return vs.IsAllocated(topoOrder(g)[j].returnValues[k]) && len(topoOrder(g)[j].returnValues[k].types) >= 1 &&
+					topoOrder(g)[j].returnValues[k].isArg == (topoOrder(g)[j].providerSpec == nil) &&
+					!vs.SameMap(topoOrder(g)[j].returnValues[k].ReferencedImports, metaData.Imports)
+			})
+	}))
+	vs.Assert("hint_values_counts", vs.Forall(len(topoOrder(g)), func(j int) bool {
+		return vs.Forall(len(topoOrder(g)[j].returnValues), func(k int) bool {
+			return topoOrder(g)[j].returnValues[k].refCounter >= 0 &&
+				(!topoOrder(g)[j].returnValues[k].withChannel || topoOrder(g)[j].returnValues[k].refCounter > 0)
+		})
+	}))
+	vs.Assert("hint_values_tables", vs.Forall(len(topoOrder(g)), func(j int) bool {
+		return vs.Forall(len(topoOrder(g)[j].returnValues), func(k int) bool { return importsNonNil(topoOrder(g)[j].returnValues[k].ReferencedImports) })
+	}))
+	vs.Assert("hint_values_still_ready", vs.Forall(len(topoOrder(g)), func(j int) bool { return valuesReady(topoOrder(g)[j], metaData) }))
 }
